@@ -174,6 +174,10 @@ theorem fdtCompleted_all (I : ObjIface σ) (P : FdtRecv σ → Prop) (s s' : Sta
           · simp only []; rw [hcfg]; exact hall0.2
         · exact ⟨⟨by rw [hc]; exact hall0.1.1, by rw [hr]; exact hall0.1.2⟩, by rw [hcfg]; exact hall0.2⟩
 
+theorem allFdt_aerase (P : FdtRecv σ → Prop) (s : State σ) (id : Nat) (hall : AllFdt P s) :
+    AllFdt P { s with fdtReceivers := aerase id s.fdtReceivers } :=
+  ⟨hall.1, fun kf hkf => hall.2 kf (mem_aerase hkf)⟩
+
 theorem fdtDispatch_all (I : ObjIface σ) (P : FdtRecv σ → Prop) (s s' : State σ) (id : Nat)
     (f : FdtRecv σ) (now : Int) (r : Res) (evs : List Ev)
     (h : fdtDispatch I s id f now = .ok (s', r, evs)) (hall : AllFdt P s) :
@@ -183,7 +187,7 @@ theorem fdtDispatch_all (I : ObjIface σ) (P : FdtRecv σ → Prop) (s s' : Stat
   · simp only [Except.ok.injEq, Prod.mk.injEq] at h
     obtain ⟨rfl, _, _⟩ := h; exact ⟨hall, rfl⟩
   · simp only [Except.ok.injEq, Prod.mk.injEq] at h
-    obtain ⟨rfl, _, _⟩ := h; exact ⟨hall, rfl⟩
+    obtain ⟨rfl, _, _⟩ := h; exact ⟨allFdt_aerase P s id hall, rfl⟩
   · split at h
     · cases h
     · split at h
@@ -191,30 +195,43 @@ theorem fdtDispatch_all (I : ObjIface σ) (P : FdtRecv σ → Prop) (s s' : Stat
       · split at h
         · cases h
         · simp only [Except.ok.injEq, Prod.mk.injEq] at h
-          obtain ⟨rfl, _, _⟩ := h; exact ⟨hall, rfl⟩
+          obtain ⟨rfl, _, _⟩ := h; exact ⟨allFdt_aerase P s id hall, rfl⟩
   · exact fdtCompleted_all I P s s' id r evs h hall
 
-theorem fdtEntry_all (I : ObjIface σ) (P : FdtRecv σ → Prop) (s : State σ) (id : Nat)
+theorem fdtEntry_all (I : ObjIface σ) (P : FdtRecv σ → Prop) (s : State σ) (id : Nat) (p : Pkt)
+    (hnote : ∀ f v, P f → P (f.noteFti v))
     (hnew : P (FdtRecv.new I id s.cfg.expCheck)) (hall : AllFdt P s) :
-    AllFdt P (fdtEntry I s id).1 ∧ P (fdtEntry I s id).2 ∧ (fdtEntry I s id).1.cfg = s.cfg := by
+    AllFdt P (fdtEntry I s id p).1 ∧ P (fdtEntry I s id p).2 ∧ (fdtEntry I s id p).1.cfg = s.cfg := by
   unfold fdtEntry
   split
   · rename_i f hf
-    exact ⟨hall, hall.2 (id, f) (alookup_mem hf), rfl⟩
-  · refine ⟨⟨hall.1, ?_⟩, hnew, rfl⟩
+    exact ⟨hall, hnote _ _ (hall.2 (id, f) (alookup_mem hf)), rfl⟩
+  · refine ⟨⟨hall.1, ?_⟩, hnote _ _ hnew, rfl⟩
     intro kf hkf
     rcases mem_ainsert hkf with hkf | hkf
     · subst hkf; exact hnew
     · exact hall.2 kf hkf
 
-theorem pushFdtObj_all (I : ObjIface σ) (P : FdtRecv σ → Prop) (s s' : State σ) (p : Pkt) (now : Int)
+theorem dropConflict_all (P : FdtRecv σ → Prop) (s : State σ) (p : Pkt) (hall : AllFdt P s) :
+    AllFdt P (dropConflict s p) ∧ (dropConflict s p).cfg = s.cfg := by
+  unfold dropConflict
+  split
+  · exact ⟨hall, rfl⟩
+  · split
+    · exact ⟨hall, rfl⟩
+    · split
+      · exact ⟨allFdt_aerase P s _ hall, rfl⟩
+      · exact ⟨hall, rfl⟩
+
+theorem pushFdtObjP_all (I : ObjIface σ) (P : FdtRecv σ → Prop) (s s' : State σ) (p : Pkt) (now : Int)
     (ans : FdtAns) (r : Res) (evs : List Ev)
+    (hnote : ∀ f v, P f → P (f.noteFti v))
     (hnew : ∀ id, p.fdtId = some id → P (FdtRecv.new I id s.cfg.expCheck))
     (hpush : ∀ id, p.fdtId = some id → ∀ f, P f → P (f.push I p now ans))
     (hupd : ∀ f f', P f → f.updateExpired now = .ok f' → P f')
-    (h : pushFdtObj I s p now ans = .ok (s', r, evs)) (hall : AllFdt P s) :
+    (h : pushFdtObj' I s p now ans = .ok (s', r, evs)) (hall : AllFdt P s) :
     AllFdt P s' ∧ s'.cfg = s.cfg := by
-  unfold pushFdtObj at h
+  unfold pushFdtObj' at h
   split at h
   · split at h
     · simp only [Except.ok.injEq, Prod.mk.injEq] at h
@@ -226,7 +243,7 @@ theorem pushFdtObj_all (I : ObjIface σ) (P : FdtRecv σ → Prop) (s s' : State
     split at h
     · simp only [Except.ok.injEq, Prod.mk.injEq] at h
       obtain ⟨rfl, _, _⟩ := h; exact ⟨hall, rfl⟩
-    · have he := fdtEntry_all I P s id (hnew id hid) hall
+    · have he := fdtEntry_all I P s id p hnote (hnew id hid) hall
       simp only [] at h
       split at h
       · simp only [Except.ok.injEq, Prod.mk.injEq] at h
@@ -247,6 +264,19 @@ theorem pushFdtObj_all (I : ObjIface σ) (P : FdtRecv σ → Prop) (s s' : State
               · subst hkf; exact hPf
               · exact he.1.2 kf hkf⟩)
           exact ⟨this.1, by rw [this.2]; exact he.2.2⟩
+
+theorem pushFdtObj_all (I : ObjIface σ) (P : FdtRecv σ → Prop) (s s' : State σ) (p : Pkt) (now : Int)
+    (ans : FdtAns) (r : Res) (evs : List Ev)
+    (hnote : ∀ f v, P f → P (f.noteFti v))
+    (hnew : ∀ id, p.fdtId = some id → P (FdtRecv.new I id s.cfg.expCheck))
+    (hpush : ∀ id, p.fdtId = some id → ∀ f, P f → P (f.push I p now ans))
+    (hupd : ∀ f f', P f → f.updateExpired now = .ok f' → P f')
+    (h : pushFdtObj I s p now ans = .ok (s', r, evs)) (hall : AllFdt P s) :
+    AllFdt P s' ∧ s'.cfg = s.cfg := by
+  have hd := dropConflict_all P s p hall
+  have := pushFdtObjP_all I P (dropConflict s p) s' p now ans r evs hnote
+    (fun id hid => by rw [hd.2]; exact hnew id hid) hpush hupd h hd.1
+  exact ⟨this.1, by rw [this.2, hd.2]⟩
 
 theorem updateExpiredAll_all (P : FdtRecv σ → Prop) (now : Int)
     (hupd : ∀ f f', P f → f.updateExpired now = .ok f' → P f') :
@@ -322,6 +352,7 @@ theorem cleanup_all (I : ObjIface σ) (P : FdtRecv σ → Prop) (s s' : State σ
 /-- the generic step lemma -/
 theorem step_all (I : ObjIface σ) (P : FdtRecv σ → Prop) (s s' : State σ) (op : Op) (r : Res)
     (evs : List Ev)
+    (hnote : ∀ f v, P f → P (f.noteFti v))
     (hnew : ∀ p now ans id, op = .data (.pkt p) now ans → p.fdtId = some id → P (FdtRecv.new I id s.cfg.expCheck))
     (hpush : ∀ p now ans, op = .data (.pkt p) now ans → p.toi = 0 → ∀ id, p.fdtId = some id →
       ∀ f, P f → P (f.push I p now ans))
@@ -344,7 +375,7 @@ theorem step_all (I : ObjIface σ) (P : FdtRecv σ → Prop) (s s' : State σ) (
         split <;> exact hall
       split at h
       · rename_i htoi
-        have := pushFdtObj_all I P _ s' p now ans r evs
+        have := pushFdtObj_all I P _ s' p now ans r evs hnote
           (fun id hid => by rw [hcfg]; exact hnew p now ans id rfl hid)
           (hpush p now ans rfl htoi) hupd h hall'
         exact ⟨this.1, by rw [this.2, hcfg]⟩
